@@ -34,5 +34,6 @@ func init() {
 		})
 		vmLeg(c, c.N(500, 8000), vmSizes{k: 24, maxSteps: 4000, maxText: 12, extra: 2}) // leg W: interpreter model vs executeDefault (vm.go)
 		wrLeg(c, 4000, 400000)
+		plLeg(c, 1100, 60000) // leg Pl: the compiler as one Lean function, stage by stage (pipeline.go)
 	})
 }
